@@ -350,11 +350,14 @@ func (s *serverSocket) onClose(reason Reason) {
 	// Server socket is one-time, it cannot be reconnected.
 	// We don't want it to close more than once,
 	// so we use sync.Once to avoid running onClose more than once.
+	// This check is done before `closeOnce`. A socket that is not connected yet
+	// (CONNECT packet is not sent) mustn't use up its only chance to get closed.
+	if !s.Connected() {
+		return
+	}
+
 	s.closeOnce.Do(func() {
 		s.debug.Log("Going to close the socket. It is not already closed. Reason", reason)
-		if !s.Connected() {
-			return
-		}
 
 		wg := utils.NewTimeoutWaiter(0)
 		s.disconnectingHandlers.forEach(func(handler *ServerSocketDisconnectingFunc) {
